@@ -14,4 +14,5 @@ INVARIANT CacheIsUnusedTail
 INVARIANT CacheClearedAtStart
 INVARIANT DefaultDelaysAreZero
 PROPERTY UpdateNoiseKeepsClock
+PROPERTY RefusedLeavesNoTrace
 CHECK_DEADLOCK FALSE
